@@ -130,12 +130,28 @@ def gen_cases(ctx):
                     c['shape'] = [2, 2]; c['pop_ids'] = ['A', 'B b']
                 c['x_from'] = rng.choice(['attr', 'explicit'])
                 c['mask_corners'] = rng.random() < 0.7
+                # with an explicit extrap_x_l the results may carry their own, different extrap_x (every Spectrum.from_phi
+                # result does) or None: the explicit list is documented to take precedence
+                c['attr_x'] = rng.choice(['same', 'other', 'other', 'none']) if c['x_from'] == 'explicit' else 'same'
             for cs in c['coefs']:
                 if cs[0] == 0:          # see above: keep the zero-spacing value off the discontinuity of the fallback test
                     cs[0] = 0.5
             if not c['via_log_func'] and rng.random() < 0.35 and k > 1:
                 c['fail_mag'] = rng.choice([1, 0.5, 0.1, 0.01, 0.001])
             cases.append(c); cid += 1
+    # explicit extrap_x_l against results that carry another extrap_x (or None): every k, linear and log mode
+    for k in range(2, 7):
+        for logm in (False, True):
+            for ax in ('other', 'none'):
+                pts0 = sorted(rng.sample(range(8, 60), k))
+                xs = [1.0 / p_ for p_ in pts0]
+                coefs = [[lib.dyadic(rng, -2, 2, 4) / (2 if logm else 1) for _ in range(k)] for _ in range(4)]
+                for e, cs in enumerate(coefs):
+                    cs[0] = 0.5 + e
+                cases.append({'id': cid, 'k': k, 'pts': pts0, 'xs': xs, 'coefs': coefs, 'log': logm, 'fail_mag': 10, 'mode': 'spectrum',
+                              'x_from': 'explicit', 'attr_x': ax, 'pts_passing': rng.choice(['pos', 'kw']), 'via_log_func': logm and ax == 'other',
+                              'perm': list(range(k)), 'scalar_pts': False, 'shape': [4], 'pop_ids': ['A'], 'mask_corners': False})
+                cid += 1
     # forced fallback / special ratio cases (ex tiny, zero, negative relative to best)
     for k in range(2, 7):
         for kind in ['tiny', 'zero', 'negative', 'huge']:
